@@ -1,7 +1,7 @@
 use std::sync::Arc;
 use std::sync::Mutex;
 
-use core_relations::{ExecutionState, ExternalFunction, Value};
+use core_relations::{ExecutionState, ExternalFunction, ExternalFunctionId, Value};
 use egglog_bridge::{
     ColumnTy, DefaultVal, FunctionConfig, FunctionId, MergeFn, RuleId, TableAction,
 };
@@ -233,7 +233,16 @@ impl EGraph {
             // Step 1: build all the query/action rules and worklist if have not already
             let record = &mut schedulers[scheduler_id];
             for (id, rule) in rules.iter() {
-                if !record.rule_info.contains_key(id) {
+                if let Some(info) = record.rule_info.get(id) {
+                    // This e-graph may be a clone (`EGraph::clone`, or the copy restored by
+                    // `pop`) of the one the rule was registered in. Cloning gives the backend's
+                    // collector and the scheduler's rule info separate copies of the match
+                    // buffer, so point the collector at this e-graph's buffer again.
+                    self.backend.replace_external_func(
+                        info.collect_matches,
+                        Box::new(CollectMatches::new(info.matches.clone())),
+                    );
+                } else {
                     let info = SchedulerRuleInfo::new(self, rule, id)?;
                     record.rule_info.insert((*id).to_owned(), info);
                 }
@@ -342,14 +351,31 @@ pub(crate) struct SchedulerRecord {
 /// we split a rule (rule query action) into a worklist relation
 /// two rules (rule query (worklist vars false)) and
 /// (rule (worklist vars false) (action ... (delete (worklist vars false))))
-#[derive(Clone)]
 struct SchedulerRuleInfo {
     matches: Arc<Mutex<Vec<Value>>>,
+    /// The backend function that appends the query rule's matches to `matches`.
+    collect_matches: ExternalFunctionId,
     should_seek: bool,
     decided: FunctionId,
     query_rule: RuleId,
     action_rule: RuleId,
     free_vars: Vec<ResolvedVar>,
+}
+
+/// A clone owns its matches: the matches held back by the scheduler belong to one e-graph and
+/// must not be shared with (or drained by) its clones.
+impl Clone for SchedulerRuleInfo {
+    fn clone(&self) -> Self {
+        Self {
+            matches: Arc::new(Mutex::new(self.matches.lock().unwrap().clone())),
+            collect_matches: self.collect_matches,
+            should_seek: self.should_seek,
+            decided: self.decided,
+            query_rule: self.query_rule,
+            action_rule: self.action_rule,
+            free_vars: self.free_vars.clone(),
+        }
+    }
 }
 
 struct CollectMatches {
@@ -459,6 +485,7 @@ impl SchedulerRuleInfo {
             query_rule: qrule_id,
             action_rule: arule_id,
             matches,
+            collect_matches,
             decided,
             should_seek: true,
         })
